@@ -85,14 +85,12 @@ def step_relation_ok(style, text, cols, prev_row, cur_row, k):
     if len(cur_row) != cols:
         return False
     if style == "scroll":
-        if len(set(text)) != len(text) or " " in text or not text:
-            return None
-        if k == 1:
+        if k == 1:                       # the start frame and the first step's frame coincide
             return None
         # one step shifts the marquee by exactly one cell
         return cur_row[:-1] == prev_row[1:] if cols >= 2 else None
     if style == "blink":
-        if not text.strip():
+        if not text[:cols].strip():      # the visible part is blank: shown and hidden frames coincide
             return None
         blank = " " * cols
         return (cur_row == blank) != (prev_row == blank)
